@@ -59,7 +59,8 @@ TRIGGER_PHRASES = [
     "a name or an id", "tuple of sizes", "callable hook", "can be `foo` or `bar`",
 ]
 SCALARS = ["int", "float", "str", "bool"]
-LITERAL_POOL = ["np", "tf", "torch", "jax", "aa", "bb", "cc", "sgd", "adam", "read_only", "http2", "mp3", "v2_beta"]
+LITERAL_POOL = ["np", "tf", "torch", "jax", "aa", "bb", "cc", "sgd", "adam", "read_only", "http2", "mp3", "v2_beta", "utf-8", "v1.0", "read only",
+                "c++", "a  b"]  # (members with characters a regular expression, a shell or a splitter would interpret)
 DOTTED = ["np.ndarray", "tf.data.Dataset", "collections.OrderedDict"]
 
 TYPE_KINDS = ("int", "float", "str", "bool", "optional", "literal", "list", "union", "dotted", "dict", "listbare")
